@@ -65,10 +65,15 @@ def Ans.approved : Ans → Bool
   | .err => false
   | .none => false
 
-/-- mudlib configuration: get_root_uid() and get_bb_uid() of the master (backbone may be unset) -/
+/-- mudlib configuration: get_root_uid() and get_bb_uid() of the master (backbone may be unset);
+    `noRoot`: the master defines no get_root_uid() - set_master then leaves the first master with what
+    give_uid_to_object gave it before a master existed ("NONAME" / 0), `root` is unused;
+    `simul`: the simul_efun object (loaded before the master: "NONAME" / 0, no exemption anywhere) is an actor, id `se` -/
 structure Cfg where
   root : Name
   bb : Option Name
+  noRoot : Bool := false
+  simul : Bool := false
 
 structure Path where
   dir : String
@@ -84,8 +89,9 @@ def files : List String := ["a", "b", "c"]
 def Path.exists (p : Path) : Bool := dirs.contains p.dir && files.contains p.file
 
 def masterOid : Oid := "m"
-/-- object ids a clone may not take: the master's and the blueprints' own ids -/
-def reservedOids : List Oid := masterOid :: dirs.flatMap (fun d => files.map (fun f => d ++ f))
+def simulOid : Oid := "se"
+/-- object ids a clone may not take: the master's, the simul_efun object's and the blueprints' own ids -/
+def reservedOids : List Oid := masterOid :: simulOid :: dirs.flatMap (fun d => files.map (fun f => d ++ f))
 
 structure Obj where
   oid : Oid
@@ -125,7 +131,7 @@ structure Policy where
   co : Nat → String → CoAns
 
 inductive Err where
-  | noEuidLoad | noEuidClone | exportZero | badArg | policy
+  | noEuidLoad | noEuidClone | exportZero | badArg | policy | simulDest
   deriving Repr, BEq, DecidableEq
 
 inductive Res where
@@ -192,9 +198,16 @@ def World.oidOfName (w : World) (name : String) (dflt : Oid) : Oid :=
   | some e => e.1
   | none => dflt
 
+/-- the objects that exist before the first step.  set_master (first load): uid = euid = get_root_uid(), and without
+    get_root_uid() the uids give_uid_to_object assigned before the master existed: "NONAME" / 0 - which is also what the
+    simul_efun object has (it is loaded before the master) -/
+def initObjs (cfg : Cfg) : List Obj :=
+  { oid := masterOid, name := "/c20/master", uid := some (if cfg.noRoot then "NONAME" else cfg.root),
+    euid := if cfg.noRoot then none else some cfg.root } ::
+  (if cfg.simul then [{ oid := simulOid, name := "/c20/simul", uid := some "NONAME", euid := none }] else [])
+
 def World.init (cfg : Cfg) : World :=
-  { objs := [{ oid := masterOid, name := "/c20/master", uid := some cfg.root, euid := some cfg.root }],
-    loaded := [], half := [], cloneSeq := 1 }
+  { objs := initObjs cfg, loaded := [], half := [], cloneSeq := 1 }
 
 def creatorName : Ans → Name
   | .str s => s
@@ -286,10 +299,15 @@ def doDest (cfg : Cfg) (w : World) (A : Obj) (t : Oid) : World × List Creation 
     if t = masterOid then
       -- destruct_object(master_ob): load_object of a new master on behalf of the caller (its euid test), the old
       -- master's creator_file answers for the master file (not logged), then set_master: uid = euid = get_root_uid()
-      if A.oid ≠ masterOid ∧ A.euid = none then (w, [], none, .err .noEuidLoad)
+      -- (harness: a master without get_root_uid() is not reloaded - its uids would come from that unlogged answer)
+      if cfg.noRoot = true then (w, [], none, .nobj)
+      else if A.oid ≠ masterOid ∧ A.euid = none then (w, [], none, .err .noEuidLoad)
       else
         let M' : Obj := { T with uid := some cfg.root, euid := some cfg.root }
         ({ w with objs := setO w.objs M' }, [{ name := w.nameOf T, ans := none, made := some M' }], none, .int 1)
+    else if t = simulOid then
+      -- destruct_object: "*Cannot destruct simul_efun_object while master_object exists."
+      (w, [], none, .err .simulDest)
     else ({ w with objs := delO w.objs t, loaded := w.loaded.filter (· ≠ w.nameOf T),
                    virt := w.virt.filter (· ≠ w.nameOf T), curName := w.curName.filter (·.1 ≠ t),
                    virtOids := w.virtOids.filter (· ≠ t) }, [], none, .int 1)
